@@ -208,9 +208,13 @@ def harness_build(variant="plain", extra_units=None):
     flags = ["-std=c++17", "-D" + GUARD, "-pthread", "-w",
              "-I" + os.path.join(REPO, "src"), "-I" + os.path.join(REPO, "include"),
              "-I" + os.path.join(REPO, "include", "teakra", "impl"), "-I" + HARNESS] + VARIANTS[variant]
+    import gen_impl
+    gdir = gen_impl.include_dir(ROOT)      # verbatim copy of the facade's private Impl structs, from the tree under test
+    flags = flags + ["-I" + gdir]
     srcs, hdrs = repo_sources()
     hsrcs = sorted(glob.glob(os.path.join(HARNESS, "*.cpp")))
-    hhdrs = sorted(glob.glob(os.path.join(HARNESS, "*.hpp")) + glob.glob(os.path.join(HARNESS, "*.h")))
+    hhdrs = sorted(glob.glob(os.path.join(HARNESS, "*.hpp")) + glob.glob(os.path.join(HARNESS, "*.h")) +
+                   glob.glob(os.path.join(gdir, "*.h")))
     hdr_key = _sha(*[_read(h) for h in hdrs + hhdrs], " ".join(flags))
     objdir = os.path.join(BUILD, "obj")
     os.makedirs(objdir, exist_ok=True)
